@@ -113,13 +113,13 @@ def c14(run):
 # ---------------------------------------------------------------------------
 # C10  ASCII armor
 
-def armor_cfg(maxn, chunks, drop=False, invs=None):
+def armor_cfg(maxn, chunks, drop=False, invs=None, spec='WSpec'):
     invs = invs or 'LinesAtMost64 OnlyLastShort WriterShape FaultSurfaces NoSpuriousError ReaderMeetsExpectation'
     return f"""CONSTANTS
   MaxN = {maxn}
   ChunkSizes = {{{', '.join(str(c) for c in chunks)}}}
   FinishInDrop = {'TRUE' if drop else 'FALSE'}
-SPECIFICATION WSpec
+SPECIFICATION {spec}
 INVARIANTS {invs}
 CHECK_DEADLOCK FALSE
 """
@@ -129,13 +129,10 @@ CHECK_DEADLOCK FALSE
 def c10(run):
     run.mc('MCArmor', armor_cfg(run.q(120, 200), [1, 2, 3, 47, 48, 49]), name='mc')
     run.mc('MCArmor', armor_cfg(5, [1, 2, 3], drop=True), name='sens_finish_in_drop', expect_violation=True)
-    nmax = run.q(1024, 4096)
-    g = run.mc('MCArmor', armor_cfg(nmax, [1], invs='GenShape GenVariants'), name='gen', workers=4, count=False,
-               timeout=900)
+    nmax = run.q(2048, 4096)
+    g = run.mc('MCArmor', armor_cfg(nmax, [1], invs='GenShape GenVariants' + (' GenBig' if run.tier == 'thorough' else ''), spec='GSpec'), name='gen', workers=1,
+               count=False, timeout=900)
     cases = g.cases
-    if run.tier == 'thorough':
-        # sampled large sizes up to 1 MiB: shape evaluated by TLC through the same operator
-        pass
     if run.replay and run.replay.get('source_case'):
         cases = [run.replay['source_case']]
     for i, c in enumerate(cases):
